@@ -861,6 +861,7 @@ pub fn c02(em: &mut Emit, thorough: bool, seed: u64) {
 
 pub fn c06(em: &mut Emit, thorough: bool, seed: u64) {
     let mut rng = Rng::new(seed ^ 0xC06);
+    c06_huge(em, &mut rng, if thorough { 20_000 } else { 1_500 });
     let n = if thorough { 60_000 } else { 2_500 };
     let lens: [u64; 8] = [
         300,
@@ -954,6 +955,77 @@ pub fn c06(em: &mut Emit, thorough: bool, seed: u64) {
             &o.show(),
             "ok",
             &format!("head:{}", status_class(&o)),
+        );
+    }
+}
+
+/// C06 on bodies too large to drain: the announced length against the length of the layout
+/// computed independently (u128) from the request's ranges and the entity's headers.
+fn c06_huge(em: &mut Emit, rng: &mut Rng, n: usize) {
+    for i in 0..n {
+        let len = *rng.pick(&[u64::MAX, u64::MAX - 1, (1u64 << 63) + 7]);
+        let mut e = ent(len);
+        let nh = rng.usize(3);
+        e.headers = (0..nh)
+            .map(|k| {
+                (
+                    ["x-ent-a", "content-language"][k % 2].to_string(),
+                    vec![b'v'; *rng.pick(&[1usize, 40, 200])],
+                )
+            })
+            .collect();
+        // a short first range and one that covers almost everything
+        let slack = *rng.pick(&[0u64, 1, 100, 180, 200, 260, 400, 1000, 5000]);
+        let a2 = 10 + rng.below(5);
+        let b2 = (len - 1).saturating_sub(slack);
+        let mut specs = vec![plain(Spec::FromTo(0, 9)), plain(Spec::FromTo(a2 as u128, b2 as u128))];
+        if rng.chance(1, 3) {
+            specs.push(plain(Spec::Suffix(1 + rng.below(20) as u128)));
+        }
+        let mut q = HReq::get();
+        q.range = Some(render_specs(&specs));
+        if i % 5 == 0 {
+            q.method = "HEAD".into();
+        }
+        if rng.chance(1, 4) {
+            q.if_range = Some(b"\"s\"".to_vec());
+        }
+        let want: Vec<(u128, u128)> = specs.iter().filter_map(|s| resolve(&s.spec, len as u128)).collect();
+        let o = observe_serve(&q, &e);
+        // independent layout length
+        let eh: u128 = if q.if_range.is_none() {
+            e.header_map().iter().map(|(k, v)| (k.as_str().len() + 2 + v.as_bytes().len() + 2) as u128).sum()
+        } else {
+            0
+        };
+        let layout: u128 = want
+            .iter()
+            .map(|(a, b)| {
+                format!("\r\n--B\r\nContent-Range: bytes {}-{}/{}\r\n", a, b, len).len() as u128
+                    + eh
+                    + 2
+                    + (b - a + 1)
+            })
+            .sum::<u128>()
+            + 9;
+        let is_mp = o.status == 206 && o.header("content-range").is_none();
+        let cl: Option<u128> = o
+            .header("content-length")
+            .and_then(|v| std::str::from_utf8(v).ok()?.parse().ok());
+        let p = if o.panicked {
+            "FAIL:panic".to_string()
+        } else if is_mp {
+            pred(cl == Some(layout), || {
+                format!("multipart Content-Length {:?} but the body layout has {} bytes", cl, layout)
+            })
+        } else {
+            "ok".to_string()
+        };
+        em.case(
+            &serve_line(&q, &e, o.now),
+            &o.show(),
+            &p,
+            &format!("huge:{}", status_class(&o)),
         );
     }
 }
